@@ -10,7 +10,7 @@
    verifications of k since, the running send window (start, sends in it).  `nkeys items <= cacheSize` says that the
    history touches no more pairs than the LRU cache holds, so that nothing is evicted. *)
 From Coq Require Import ZArith List Bool String Ascii.
-Require Import C19_Model C19_Cache C19_Spec C19_Sound C19_Nonce C19_Thm C19_More C19_Clock C19_Check.
+Require Import C19_Model C19_Cache C19_Spec C19_Sound C19_Nonce C19_Thm C19_More C19_Clock C19_Fast C19_Check.
 Import ListNotations.
 Open Scope Z_scope.
 
@@ -28,6 +28,10 @@ Theorem c19_nonce_model_holds : forall base n raw targets,
   Z.of_nat (List.length targets) = Z.max 0 n ->
   nonce_holds base n targets (snd (nonce_run (nonce_bound base) base raw targets)) = true.
 Proof. exact nonce_model_holds. Qed.
+
+(* the one-pass monitor evaluated on run-length histories (tens of thousands of items) is the monitor *)
+Theorem c19_holds_fast_eq : forall c items, holds_fast c items = holds c items.
+Proof. exact holds_fast_eq. Qed.
 
 (* ---------------- a sent code verifies ---------------- *)
 Theorem c19_verify_after_send : forall c pre mid post a p t smsok h e calls cd hs now r,
@@ -70,6 +74,8 @@ Theorem c19_wrong_anything_fails : forall c pre post a p cd hs now r,
 Proof. exact wrong_anything_fails. Qed.
 
 (* ---------------- the attempt limit ---------------- *)
+(* for EVERY number of attempts: the model's counters are unbounded integers, nothing wraps - 65536 or 2^64 further
+   attempts against one sent code leave it locked (the correspondence check exercises counts beyond 2^16) *)
 Theorem c19_attempt_bound : forall c pre post a p cd hs now r,
   conforms_run c [] (pre ++ (Verify a p cd hs now, RVerify r) :: post) = true ->
   maxVerify c <= Z.of_nat (attempts c (key a p) (rev pre)) ->
@@ -243,6 +249,7 @@ Proof. exact history_conforms. Qed.
 Print Assumptions c19_case_sound.
 Print Assumptions c19_model_holds.
 Print Assumptions c19_nonce_model_holds.
+Print Assumptions c19_holds_fast_eq.
 Print Assumptions c19_verify_after_send.
 Print Assumptions c19_send_resets_attempts.
 Print Assumptions c19_verify_ok_only_if.
